@@ -217,6 +217,18 @@ AddTrack(c, t) ==
     /\ Done(Call("add_track", c, 0, "", t, 0), "ok", 0)
     /\ UNCHANGED <<fam, live, dead, par, nm, kids, tlive, tdead>>
 
+\* The bulk entry point crate::add_tracks(first, last): the members are added in the order given; an id that occurs twice in the
+\* range, or that the crate already holds, is added once and keeps its first place.  (Not a disjunct of Next: the model graph is
+\* generated with single adds; replayed scripts reach this entry point by folding consecutive adds, see tools/libcheck.bulkify.)
+RECURSIVE AddAll(_, _)
+AddAll(m, ts) == IF ts = <<>> THEN m ELSE AddAll(IF Head(ts) \in ToSet(m) THEN m ELSE Append(m, Head(ts)), Tail(ts))
+AddTracks(c, ts) ==
+    /\ c \in live /\ \A k \in DOMAIN ts : ts[k] \in tlive
+    /\ mem' = [mem EXCEPT ![c] = AddAll(@, ts)]
+    /\ kf' = ""
+    /\ Done(Call("add_tracks", c, 0, "", 0, 0), "ok", 0)
+    /\ UNCHANGED <<fam, live, dead, par, nm, kids, tlive, tdead>>
+
 RemoveTrackFrom(c, t) ==
     /\ c \in live /\ t \in tlive
     /\ mem' = [mem EXCEPT ![c] = Without(@, t)]
@@ -295,6 +307,6 @@ OrderStable ==
 MemFrame ==
     [][NewLib \/ \A c \in live \cap live', t \in tlive \cap tlive' :
           (t \in ToSet(mem[c])) # (t \in ToSet(mem'[c])) =>
-              (last'.c = c /\ last'.op \in {"clear_tracks", "add_track", "remove_track_from"}
-                 /\ (last'.op = "clear_tracks" \/ last'.t = t))]_vars
+              (last'.c = c /\ last'.op \in {"clear_tracks", "add_track", "add_tracks", "remove_track_from"}
+                 /\ (last'.op \in {"clear_tracks", "add_tracks"} \/ last'.t = t))]_vars
 =============================================================================
